@@ -1,8 +1,8 @@
 (* C08 — Admission rules: only valid market actions are accepted.
-   Statements only; proofs are in Proofs/Admission.v.  The rules are written over public
+   Statements only; proofs are in Proofs/Admission.v and Proofs/OneActive.v.  The rules are written over public
    state ([start_rule], [node_active_now], ...); both directions where proved. *)
 From Hub Require Import Base.Prelude Base.Arith Model.Types Model.Keeper Model.Handlers Model.Hooks Model.Step.
-From Hub Require Import Proofs.Tactics Proofs.Frames Proofs.KeysInv Proofs.Admission.
+From Hub Require Import Proofs.Tactics Proofs.Frames Proofs.KeysInv Proofs.Admission Proofs.IndexSess Proofs.OneActive.
 
 (* A session can only be started on an active subscription, on an active node that the subscription
    covers (its own node — and then only by the subscriber — or a node linked to the plan and currently
@@ -59,13 +59,21 @@ Theorem C08_link_accepted : forall s from id nd p,
   exists s', h_plan_link s from id nd = Ok s'.
 Proof. exact plan_link_complete. Qed.
 
-(* Not proved here: the converse directions for the purchases (they additionally need sufficient
-   funds, an unblocked recipient and arithmetic in range — the C03 range invariant), and the run-level
-   corollary "at most one active session per (subscription, address)" (needs the session index
-   invariant); the implementation-side monitor checks both on every generated history. *)
-Definition C08_one_active_session_statement : Prop := forall g ops s' x y,
+(* In every state reachable from any genesis by any history, an account has at most one ACTIVE
+   session on a subscription: two live active sessions of the same (subscription, address) are the
+   same session.  (Invariant: an active session is the newest live session of its pair; MsgStart
+   creates one only when the newest session of the pair is not active.) *)
+Theorem C08_one_active_session : forall g ops s' x y,
   run (init g) ops = RunOk s' -> sessions s' !! ss_id x = Some x -> sessions s' !! ss_id y = Some y ->
   ss_status x = SActive -> ss_status y = SActive -> ss_sub x = ss_sub y -> ss_addr x = ss_addr y -> ss_id x = ss_id y.
+Proof. exact one_active_session. Qed.
+
+Theorem C08_one_active_invariant : forall s o s', kinv s -> idx_sess s -> one_act s -> step s o = OOk s' -> one_act s'.
+Proof. exact one_act_step. Qed.
+
+(* Not proved here: the converse directions for the purchases (they additionally need sufficient
+   funds, an unblocked recipient and arithmetic in range — the C03 range invariant); the
+   implementation-side monitor evaluates every rule on the pre-state of every admission message. *)
 
 Print Assumptions C08_start_accepted_implies_rule.
 Print Assumptions C08_rule_implies_start_accepted.
@@ -78,3 +86,5 @@ Print Assumptions C08_plan_needs_provider.
 Print Assumptions C08_plan_with_provider_accepted.
 Print Assumptions C08_link_needs_node.
 Print Assumptions C08_link_accepted.
+Print Assumptions C08_one_active_session.
+Print Assumptions C08_one_active_invariant.
